@@ -401,6 +401,9 @@ ocp.set_der(v, a)
 
         f = ca.Function("f",v_symbols+[fixed_parameters,spline_symbols,stage.t],[expr])
         F = f.map(self.N*refine+1-max_offset+min_offset,len(v_symbols)*[False]+ [True,False,False])
+        # the sampled signals live on the same (offset-trimmed) grid points as the states and the time
+        if len(self.signals)>0:
+            spline_traj = spline_traj[:,-min_offset:stop-max_offset]
         results = F(*v_expressions,fixed_parameters,spline_traj,time)
         results = self.eval(stage, results)
 
